@@ -105,10 +105,15 @@ def ws2dwcvp(y, nodata, p, llas, robust, out, lopt):
                 if mad > 1e-9 * max(1.0, np.max(np.abs(yv))):
                     u_arr = r_arr / (1.4826 * mad * np.sqrt(1 - gamma.sum() / n))
 
-                    r_weights = (1 - (u_arr / 4.685) ** 2) ** 2
-                    r_weights[(np.abs(u_arr / 4.685) > 1)] = 0
+                    new_weights = (1 - (u_arr / 4.685) ** 2) ** 2
+                    new_weights[(np.abs(u_arr / 4.685) > 1)] = 0
 
-                    r_weights[r_arr > 0] = 1
+                    new_weights[r_arr > 0] = 1
+
+                    # the smoother needs two weighted cells: a reweighting that switches
+                    # (almost) every cell off is not applied
+                    if np.count_nonzero(w * new_weights) >= 2:
+                        r_weights = new_weights
 
             robust_weights = w * r_weights
 
